@@ -71,10 +71,12 @@ func fieldIndex(t types.Type, name string) int {
 func mutexLock(fr *frame, p *value, what string) {
 	m := syncSt.mutex(p)
 	g := curG(fr)
-	sched.yield(g, what)
+	if !(m.locked || m.readers > 0) {
+		sched.yield(g, what, m)
+	}
 	if m.locked || m.readers > 0 {
 		m.writersWaiting++
-		sched.block(g, what, func() bool { return !m.locked && m.readers == 0 })
+		sched.block(g, what, func() bool { return !m.locked && m.readers == 0 }, m)
 		m.writersWaiting--
 	}
 	m.locked = true
@@ -83,11 +85,11 @@ func mutexLock(fr *frame, p *value, what string) {
 
 func mutexUnlock(fr *frame, p *value) {
 	m := syncSt.mutex(p)
+	sched.yield(curG(fr), "Unlock", m)
 	if !m.locked {
 		panic(targetPanicMsg("fatal error: sync: unlock of unlocked mutex"))
 	}
 	m.locked = false
-	sched.yield(curG(fr), "Unlock")
 }
 
 func initSyncIntrinsics() {
@@ -98,7 +100,7 @@ func initSyncIntrinsics() {
 	}
 	e["(*sync.Mutex).TryLock"] = func(fr *frame, args []value) value {
 		m := syncSt.mutex(args[0].(*value))
-		sched.yield(curG(fr), "Mutex.TryLock")
+		sched.yield(curG(fr), "Mutex.TryLock", m)
 		if m.locked {
 			return false
 		}
@@ -121,20 +123,22 @@ func initSyncIntrinsics() {
 	e["(*sync.RWMutex).RLock"] = func(fr *frame, args []value) value {
 		m := syncSt.mutex(args[0].(*value))
 		g := curG(fr)
-		sched.yield(g, "RWMutex.RLock")
+		if !(m.locked || m.writersWaiting > 0) {
+			sched.yield(g, "RWMutex.RLock", commuting{m})
+		}
 		if m.locked || m.writersWaiting > 0 {
-			sched.block(g, "RWMutex.RLock", func() bool { return !m.locked && m.writersWaiting == 0 })
+			sched.block(g, "RWMutex.RLock", func() bool { return !m.locked && m.writersWaiting == 0 }, m)
 		}
 		m.readers++
 		return nil
 	}
 	e["(*sync.RWMutex).RUnlock"] = func(fr *frame, args []value) value {
 		m := syncSt.mutex(args[0].(*value))
+		sched.yield(curG(fr), "RWMutex.RUnlock", commuting{m})
 		if m.readers <= 0 {
 			panic(targetPanicMsg("fatal error: sync: RUnlock of unlocked RWMutex"))
 		}
 		m.readers--
-		sched.yield(curG(fr), "RWMutex.RUnlock")
 		return nil
 	}
 	e["(*sync.WaitGroup).Add"] = func(fr *frame, args []value) value {
@@ -157,11 +161,11 @@ func initSyncIntrinsics() {
 			w = &wgState{}
 			syncSt.wg[p] = w
 		}
+		sched.yield(curG(fr), "WaitGroup.Done", commuting{w})
 		w.n--
 		if w.n < 0 {
 			panic(targetPanicMsg("sync: negative WaitGroup counter"))
 		}
-		sched.yield(curG(fr), "WaitGroup.Done")
 		return nil
 	}
 	e["(*sync.WaitGroup).Wait"] = func(fr *frame, args []value) value {
@@ -172,9 +176,11 @@ func initSyncIntrinsics() {
 			syncSt.wg[p] = w
 		}
 		g := curG(fr)
-		sched.yield(g, "WaitGroup.Wait")
+		if w.n <= 0 {
+			sched.yield(g, "WaitGroup.Wait", w)
+		}
 		if w.n > 0 {
-			sched.block(g, "WaitGroup.Wait", func() bool { return w.n == 0 })
+			sched.block(g, "WaitGroup.Wait", func() bool { return w.n == 0 }, w)
 		}
 		return nil
 	}
@@ -186,12 +192,12 @@ func initSyncIntrinsics() {
 			syncSt.once[p] = o
 		}
 		g := curG(fr)
-		sched.yield(g, "Once.Do")
+		sched.yield(g, "Once.Do", o)
 		if o.done {
 			return nil
 		}
 		if o.running {
-			sched.block(g, "Once.Do", func() bool { return o.done })
+			sched.block(g, "Once.Do", func() bool { return o.done }, o)
 			return nil
 		}
 		o.running = true
@@ -303,53 +309,6 @@ func concretizeOr(v value, def value) value {
 }
 
 func nil2(v value) types.Type { return types.Typ[types.Int] }
-
-// spawnEngine starts an engine-level pseudo goroutine (timer etc.).
-func spawnEngine(fr *frame, name string, body func(g *gor)) {
-	s := sched
-	g := &gor{id: len(s.gs), wake: make(chan struct{}, 1), name: name}
-	s.gs = append(s.gs, g)
-	go func() {
-		<-g.wake
-		if s.killed {
-			g.done = true
-			s.ack()
-			return
-		}
-		s.cur = g
-		body(g)
-		g.done = true
-		en := s.enabled()
-		if len(en) == 0 {
-			s.abort = deadlockAbort(s)
-			m := s.gs[0]
-			s.cur = m
-			m.wake <- struct{}{}
-			return
-		}
-		next := en[0]
-		if len(en) > 1 {
-			c := -1
-			func() {
-				defer func() {
-					if r := recover(); r != nil {
-						s.abort = r
-					}
-				}()
-				c = EX.Choose(len(en), "sched")
-			}()
-			if c < 0 {
-				m := s.gs[0]
-				s.cur = m
-				m.wake <- struct{}{}
-				return
-			}
-			next = en[c]
-		}
-		s.cur = next
-		next.wake <- struct{}{}
-	}()
-}
 
 // atomicTypedMethod models methods of sync/atomic.Int32/Int64/Uint32/Uint64/Bool/Pointer[T]/Value.
 func atomicTypedMethod(name string) externalFn {
